@@ -163,7 +163,7 @@ def run(ctx):
     it.run(fd)
     starts = set()
     for (sfi, stmt, tgt, val, conds, depth) in it.store_log:
-        if depth == 0 and tgt[0] == "idx" and isinstance(tgt[2], SliceV) and tgt[2].step == S("gv.sps"):
+        if tgt[0] == "idx" and isinstance(tgt[2], SliceV) and tgt[2].step == S("gv.sps"):
             starts.add(repr(tgt[2].lo))
     want = {repr(mk_fn("int", [HALF])), repr(mk_fn("int", [HALF - 1]))}
     ctx.check("C03.4", starts == want, fd, fd.node, f"DAC Gaussian impulses at offsets {sorted(starts)}", "sps//2 and sps//2-1: the pulse peaks where both DSP chains sample (gv.sps//2)",
